@@ -127,6 +127,8 @@ class Ctx:
         self.cancelled = 0
         self.track_cancel = False
         self.polyatoms = {}
+        self.cancel = False
+        self.factors = []
         self.poly_names = {}
 
     def key(self, node):
@@ -184,16 +186,45 @@ class Ctx:
 
     def radd(self, a, b):
         if a[1] == b[1]:
-            return (self.reduce(padd(a[0], b[0])), a[1])
-        return (self.reduce(padd(pmul(a[0], b[1]), pmul(b[0], a[1]))), self.reduce(pmul(a[1], b[1])))
+            return self.simplify((self.reduce(padd(a[0], b[0])), a[1]))
+        if self.cancel:
+            q = pdivexact(a[1], b[1]) if len(b[1]) <= len(a[1]) else None
+            if q is not None:
+                return self.simplify((self.reduce(padd(a[0], pmul(b[0], q))), a[1]))
+            q = pdivexact(b[1], a[1]) if len(a[1]) <= len(b[1]) else None
+            if q is not None:
+                return self.simplify((self.reduce(padd(pmul(a[0], q), b[0])), b[1]))
+        return self.simplify((self.reduce(padd(pmul(a[0], b[1]), pmul(b[0], a[1]))), self.reduce(pmul(a[1], b[1]))))
 
     def rmul(self, a, b):
-        return (self.reduce(pmul(a[0], b[0])), self.reduce(pmul(a[1], b[1])))
+        return self.simplify((self.reduce(pmul(a[0], b[0])), self.reduce(pmul(a[1], b[1]))))
 
     def rdiv(self, a, b):
         if not b[0]:
             raise NotPoly('division by the zero polynomial')
-        return (self.reduce(pmul(a[0], b[1])), self.reduce(pmul(a[1], b[0])))
+        if self.cancel and len(b[0]) > 1 and b[0] not in self.factors:
+            self.factors.append(b[0])
+            self.factors.sort(key=len, reverse=True)
+        return self.simplify((self.reduce(pmul(a[0], b[1])), self.reduce(pmul(a[1], b[0]))))
+
+    def simplify(self, r):
+        """cancel known factors (polynomials that occurred as divisors) common to num and den"""
+        if not self.cancel:
+            return r
+        num, den = r
+        if not num:
+            return ({}, pconst(1))
+        if len(den) == 1 and () in den:
+            return r
+        for f in self.factors:
+            while len(f) <= len(den) or len(f) <= 2:
+                qd = pdivexact(den, f)
+                if qd is None: break
+                qn = pdivexact(num, f)
+                if qn is None: break
+                num, den = qn, qd
+        # monomial content of the denominator
+        return (num, den)
 
     def requal(self, a, b):
         return not self.reduce(psub(pmul(a[0], b[1]), pmul(b[0], a[1])))
